@@ -180,7 +180,12 @@ impl Prop for C02Prop {
         }
         if stream == "lits" || stream == "mlprog" {
             // the multi-line literal shapes of C12 (its generator), judged by C02's oracle
-            return crate::props::c12::C12.generate(stream, t);
+            let mut c = crate::props::c12::C12.generate(stream, t)?;
+            // narrow widths: the re-indent / re-wrap rounds interact there
+            if t.chance(1, 2) {
+                c.cfg.wrap_column = t.range(15, 45);
+            }
+            return Some(c);
         }
         let mut c = wf::wf_generate(stream, t, true)?;
         // line-ending variants of the whole file (tokens spanning lines change with it)
